@@ -209,6 +209,88 @@ def ddp_perlayer_search(ctx):
                                  f"sample rate 1/3 the accountant history is {h}", {"failing_input": {"cfg": {k: cfg[k] for k in ('variant', 'path', 'sigma', 'E', 'reduction')}}, "history": h})
 
 
+def ledger_eps_search(ctx):
+    """the reported epsilon depends only on the MULTISET of recorded steps: for histories of 3 / 5 / 6 distinct runs
+    (odd counts exercise the unpaired element of the PRV convolution tree) every permutation gives the same epsilon,
+    and no run may be ignored (dropping one must not leave epsilon unchanged).  Real accountants only."""
+    import itertools
+
+    from opacus.accountants import PRVAccountant, RDPAccountant
+
+    for trial in range(ctx.n(4, 40)):
+        k = [3, 5, 6, 3][trial % 4]
+        hist = [(round(ctx.rng.uniform(0.8, 2.0), 3), ctx.rng.choice([0.05, 0.1, 0.2, 0.3]), ctx.rng.randint(2, 12)) for _ in range(k)]
+        for cls, tol in ((RDPAccountant, 1e-9), (PRVAccountant, 0.03)):
+            if cls is PRVAccountant and trial >= ctx.n(2, 12):
+                continue
+
+            def eps(h):
+                a = cls()
+                a.history = list(h)
+                return float(a.get_epsilon(1e-5)) if cls is RDPAccountant else float(a.get_epsilon(1e-5, eps_error=0.01))
+
+            try:
+                base = eps(hist)
+                perms = [list(reversed(hist)), hist[1:] + hist[:1], hist[-1:] + hist[:-1]]
+                vals = [eps(p) for p in perms]
+                drop = [eps(hist[:i] + hist[i + 1:]) for i in (0, k - 1)]
+            except Exception as e:
+                ctx.count("ledger-eps:accountant-raised:" + type(e).__name__)
+                continue
+            ctx.case(("ledger-eps", cls.__name__, tuple(hist)), nontrivial=True, kind="ledger-eps:" + cls.__name__)
+            bad = [v for v in vals if abs(v - base) > tol * max(1.0, abs(base))]
+            ignored = [d for d in drop if abs(d - base) <= 1e-12]
+            if bad or ignored:
+                ctx.property_failure(f"C05:eps-depends-on-order:{cls.__name__}",
+                                     f"{cls.__name__}: history {hist}: epsilon {base}; permutations give {vals}; without the first / last run {drop} "
+                                     f"({'a recorded run is ignored' if ignored else 'epsilon depends on the order of the recorded runs'})",
+                                     {"failing_input": {"hist": hist, "accountant": cls.__name__}})
+            else:
+                ctx.validated()
+
+
+def bmm_empty_batch_search(ctx):
+    """Poisson sampling with a tiny expected batch size through the real BatchMemoryManager: every LOGICAL batch –
+    the empty ones included – is one noised, accounted step (the machine's `empty_batch_accounted`, on real loops)"""
+    from opacus import PrivacyEngine
+    from opacus.utils.batch_memory_manager import BatchMemoryManager
+
+    for trial in range(ctx.n(3, 20)):
+        acct = ["rdp", "prv", "gdp"][trial % 3]
+        N, bs = 24, ctx.rng.choice([1, 2])
+        torch.manual_seed(ctx.rng.randrange(10**6))
+        ds = torch.utils.data.TensorDataset(torch.randn(N, 3, dtype=torch.float64), torch.zeros(N, dtype=torch.long))
+        dl = torch.utils.data.DataLoader(ds, batch_size=bs)
+        m = torch.nn.Linear(3, 2).double()
+        opt = torch.optim.SGD(m.parameters(), lr=0.1)
+        pe = PrivacyEngine(accountant=acct)
+        gm, op, dpl = pe.make_private(module=m, optimizer=opt, data_loader=dl, noise_multiplier=1.0, max_grad_norm=1.0)
+        inner_steps, empties, logical = 0, 0, 0
+        orig = op.original_optimizer.step
+
+        def counted(*a, **k):
+            nonlocal inner_steps
+            inner_steps += 1
+            return orig(*a, **k)
+
+        op.original_optimizer.step = counted
+        logical = len(dpl)
+        with BatchMemoryManager(data_loader=dpl, max_physical_batch_size=ctx.rng.choice([1, 2, 3]), optimizer=op) as mdl:
+            for x, y in mdl:
+                empties += int(len(x) == 0)
+                op.zero_grad()
+                torch.nn.functional.cross_entropy(gm(x), y).backward()
+                op.step()
+        steps = sum(n for _, _, n in pe.accountant.history)
+        ctx.case(("bmm-empty", acct, trial), nontrivial=empties > 0, kind="bmm-empty:" + acct)
+        ctx.count("bmm-empty:empty-physical-batches", empties)
+        if steps != logical or inner_steps != logical:
+            ctx.property_failure(f"C05:bmm:ledger-vs-logical-batches:{acct}", f"{logical} logical Poisson batches ({empties} empty) through BatchMemoryManager: "
+                                 f"{inner_steps} inner optimizer steps, {steps} accounted steps", {"failing_input": {"accountant": acct, "N": N, "batch_size": bs}})
+        else:
+            ctx.validated()
+
+
 def run(ctx):
     with rig.default_dtype(torch.float64):
         cases = []
@@ -241,6 +323,8 @@ def run(ctx):
             ctx.mismatch("engine-accounting", {"cfg": cfg, "ops": ops[:diff] if diff else ops, "full_ops": ops, "acct": acct}, real[: diff + 1], model[: diff + 1],
                          oracle=case_oracle, note=f"first differing op index {diff}: {ops[diff-1] if diff else 'new'}")
         shared_ledger_search(ctx)
+    bmm_empty_batch_search(ctx)
+    ledger_eps_search(ctx)
     ddp_perlayer_search(ctx)
 
 
